@@ -166,9 +166,286 @@ static std::string run_covmat(const Sx& c) {
   return o.str();
 }
 
+// ---------------------------------------------------------------------------------------------- kriging helper
+struct KOpt {
+  EKrigOpt calcul = EKrigOpt::POINT; VectorInt ndiscs; VectorInt colcok; bool xvalid = false; bool c01dump = false;
+};
+// per target: (it err nbgh nred est std varz wgt var0)  [+ the record of harness/C01.cpp when c01dump]
+static std::string krigeAll(Db* dbin, Db* dbout, Model* model, ANeigh* neigh, const KOpt& k, const VectorInt& targets, int nvar, int ndim) {
+  std::ostringstream o;
+  int iptrEst = dbout->addColumnsByConstant(nvar, TEST);
+  int iptrStd = dbout->addColumnsByConstant(nvar, TEST);
+  int iptrVarZ = dbout->addColumnsByConstant(nvar, TEST);
+  KrigingSystem ksys(dbin, dbout, model, neigh);
+  bool ok = true;
+  if (ksys.updKrigOptEstim(iptrEst, iptrStd, iptrVarZ)) ok = false;
+  if (ok && ksys.setKrigOptCalcul(k.calcul, k.ndiscs, false)) ok = false;
+  if (ok && !k.colcok.empty() && ksys.setKrigOptColCok(k.colcok)) ok = false;
+  if (ok && k.xvalid && ksys.setKrigOptXValid(true, false, false, false, false)) ok = false;
+  if (ok && !ksys.isReady()) ok = false;
+  o << "(" << (ok ? 1 : 0) << " (";
+  if (ok) {
+    CovCalcMode mLHS(ECalcMember::LHS), mRHS(ECalcMember::RHS), mVAR(ECalcMember::VAR);
+    for (int it : targets) {
+      int err = ksys.estimate(it);
+      int nred = ksys._nred, nech = (int) ksys._nbgh.size();
+      o << "(" << it << " " << err << " " << sx_vi(ksys._nbgh) << " " << nred << " ";
+      auto outs = [&](int ip) { o << "("; for (int v = 0; v < nvar; v++) o << (v ? " " : "") << sx_d(dbout->getArray(it, ip + v)); o << ") "; };
+      outs(iptrEst); outs(iptrStd); outs(iptrVarZ);
+      bool active = dbout->isActive(it);
+      bool have = active && !k.xvalid && nech > 0 && ksys._lhs != nullptr && ksys._lhs->getNRows() >= nred && ksys._rhs != nullptr && ksys._rhs->getNRows() >= nred && ksys._wgt.getNRows() >= nred;
+      if (have) o << matStr(ksys._wgt, nred, nvar); else o << "()";
+      o << " " << matStr(ksys._var0, nvar, nvar);
+      if (k.xvalid) {   // the (compressed) left-hand side whose inverse the shortcut reads
+        if (active && nech > 0 && ksys._lhs != nullptr && ksys._lhs->getNRows() >= nred) o << " " << matStr(*ksys._lhs, nred, nred); else o << " ()";
+      }
+      if (k.c01dump) {
+        // same record as harness/C01.cpp (flag lhs rhs zam + covariance oracle on the pairs used)
+        o << " ";
+        bool haveS = have && ksys._zam.getNRows() >= nred;
+        if (haveS) {
+          VectorInt fl; for (auto f : ksys._flag) fl.push_back(f);
+          o << sx_vi(fl) << " " << matStr(*ksys._lhs, nred, nred) << " " << matStr(*ksys._rhs, nred, nvar) << " " << matStr(ksys._zam, nred, 1) << " ";
+        } else o << "() () () () ";
+        std::vector<SpacePoint> ps;
+        for (int i = 0; i < nech; i++) { VectorDouble x(ndim); for (int d = 0; d < ndim; d++) x[d] = dbin->getCoordinate(ksys._nbgh[i], d); ps.emplace_back(x); }
+        VectorDouble x0(ndim); for (int d = 0; d < ndim; d++) x0[d] = dbout->getCoordinate(it, d);
+        o << "(";
+        for (int i = 0; i < nech; i++) { o << "("; for (int j = 0; j <= i; j++) { o << "(";
+          for (int a = 0; a < nvar; a++) { o << "("; for (int b = 0; b < nvar; b++) o << (b ? " " : "") << sx_d(model->eval(ps[i], ps[j], a, b, &mLHS)); o << ")"; }
+          o << ")"; } o << ")"; }
+        o << ") (";
+        SpacePoint pt(x0);
+        for (int i = 0; i < nech; i++) { o << "((";
+          for (int a = 0; a < nvar; a++) { o << "("; for (int b = 0; b < nvar; b++) o << (b ? " " : "") << sx_d(model->eval(ps[i], pt, a, b, &mRHS)); o << ")"; }
+          o << "))"; }
+        o << ") (";
+        for (int a = 0; a < nvar; a++) { o << "("; for (int b = 0; b < nvar; b++) o << (b ? " " : "") << sx_d(model->eval(pt, pt, a, b, &mVAR)); o << ")"; }
+        o << ")";
+      }
+      o << ")";
+    }
+    ksys.conclusion();
+  }
+  o << "))";
+  return o.str();
+}
+static VectorInt allTargets(const Db* db) { VectorInt t; for (int i = 0; i < db->getSampleNumber(); i++) t.push_back(i); return t; }
+
+// ---------------------------------------------------------------------------------------------- mode 2
+// (2 ndim nvar dbin dbout model (nmini nmaxi radius))
+static std::string run_unique_moving(const Sx& c) {
+  int ndim = (int) c[1].i(), nvar = (int) c[2].i(); int nfex = (int) c[5][2].i();
+  defineDefaultSpace(ESpaceType::RN, ndim);
+  std::ostringstream o; o << "(";
+  for (int pass = 0; pass < 2; pass++) {
+    Db* dbin = makeDb(c[3], ndim, nfex); Db* dbout = makeDb(c[4], ndim, nfex); Model* model = makeModel(c[5], ndim, nvar);
+    ANeigh* neigh = pass == 0 ? (ANeigh*) NeighUnique::create() : (ANeigh*) NeighMoving::create(false, (int) c[6][1].i(), c[6][2].d(TEST), (int) c[6][0].i());
+    if (pass == 0) o << driftsStr(model) << " ";
+    KOpt k; k.c01dump = (pass == 0);
+    o << krigeAll(dbin, dbout, model, neigh, k, allTargets(dbout), nvar, ndim) << (pass == 0 ? " " : "");
+    delete dbin; delete dbout; delete model; delete neigh;
+  }
+  o << ")"; return o.str();
+}
+
+// ---------------------------------------------------------------------------------------------- mode 3
+static Sx subsetDb(const Sx& d, const std::vector<int>& keep) {
+  Sx r; r.l.resize(5);
+  for (int part = 0; part < 4; part++) for (auto& col : d[part].l) { Sx cc; for (int i : keep) cc.l.push_back(col[i]); r.l[part].l.push_back(cc); }
+  if (d[4].size() > 0) for (int i : keep) r.l[4].l.push_back(d[4][i]);
+  return r;
+}
+// (3 ndim nvar db model (nmini nmaxi radius)|())   cross-validation in unique neighbourhood vs explicit leave-one-out
+static std::string run_xvalid(const Sx& c) {
+  int ndim = (int) c[1].i(), nvar = (int) c[2].i(); int nfex = (int) c[4][2].i();
+  defineDefaultSpace(ESpaceType::RN, ndim);
+  int n = (int) c[3][0][0].size();
+  std::ostringstream o; o << "(";
+  { // A: the shortcut
+    Db* db = makeDb(c[3], ndim, nfex); Model* model = makeModel(c[4], ndim, nvar); ANeigh* neigh = NeighUnique::create();
+    o << driftsStr(model) << " ";
+    KOpt k; k.xvalid = true;
+    o << krigeAll(db, db, model, neigh, k, allTargets(db), nvar, ndim) << " ";
+    delete db; delete model; delete neigh;
+  }
+  { // C: standard cross-validation in a moving neighbourhood holding every sample (the _xvalid exclusion path)
+    Db* db = makeDb(c[3], ndim, nfex); Model* model = makeModel(c[4], ndim, nvar); ANeigh* neigh = NeighMoving::create(false, 10000, TEST, 1);
+    KOpt k; k.xvalid = true;
+    o << krigeAll(db, db, model, neigh, k, allTargets(db), nvar, ndim) << " ";
+    delete db; delete model; delete neigh;
+  }
+  // B: explicit leave-one-out: data base without sample i, target = sample i
+  o << "(";
+  for (int i = 0; i < n; i++) {
+    std::vector<int> keep; for (int j = 0; j < n; j++) if (j != i) keep.push_back(j);
+    Sx din = subsetDb(c[3], keep); Sx dout = subsetDb(c[3], std::vector<int>{i}); dout.l[4].l.clear();
+    Db* dbin = makeDb(din, ndim, nfex); Db* dbout = makeDb(dout, ndim, nfex); Model* model = makeModel(c[4], ndim, nvar); ANeigh* neigh = NeighUnique::create();
+    KOpt k; k.c01dump = true;
+    o << krigeAll(dbin, dbout, model, neigh, k, VectorInt{0}, nvar, ndim);
+    delete dbin; delete dbout; delete model; delete neigh;
+  }
+  o << "))"; return o.str();
+}
+
+// ---------------------------------------------------------------------------------------------- mode 4
+// (4 0 ndim db1 db2 dist_type dmax)  migrate with / without ball tree
+// (4 1 ndim dbin dbout (nmini nmaxi radius leaf))  NeighMoving with / without ball search
+static std::string run_ball(const Sx& c) {
+  int ndim = (int) c[2].i();
+  defineDefaultSpace(ESpaceType::RN, ndim);
+  std::ostringstream o; o << "(";
+  if (c[1].i() == 0) {
+    for (int pass = 0; pass < 2; pass++) {
+      Db* db1 = makeDb(c[3], ndim, 0); Db* db2 = makeDb(c[4], ndim, 0);
+      int ncol = db2->getColumnNumber();
+      int err = migrate(db1, db2, "z1", (int) c[5].i(), c[6].vd(), true, false, pass == 1, NamingConvention("Migrate", false));
+      o << "(" << err << " ";
+      if (!err && db2->getColumnNumber() > ncol) { o << "("; for (int i = 0; i < db2->getSampleNumber(); i++) o << (i ? " " : "") << sx_d(db2->getValueByColIdx(i, db2->getColumnNumber() - 1)); o << ")"; }
+      else o << "()";
+      o << ")" << (pass == 0 ? " " : "");
+      delete db1; delete db2;
+    }
+  } else {
+    for (int pass = 0; pass < 2; pass++) {
+      Db* dbin = makeDb(c[3], ndim, 0); Db* dbout = makeDb(c[4], ndim, 0);
+      NeighMoving* nb = NeighMoving::create(false, (int) c[5][1].i(), c[5][2].d(TEST), (int) c[5][0].i());
+      if (pass == 1) nb->setBallSearch(true, (int) c[5][3].i());
+      o << "(";
+      if (nb->attach(dbin, dbout)) o << "-1";
+      else for (int it = 0; it < dbout->getSampleNumber(); it++) { VectorInt ranks; nb->select(it, ranks); o << sx_vi(ranks); }
+      o << ")" << (pass == 0 ? " " : "");
+      delete nb; delete dbin; delete dbout;
+    }
+  }
+  o << ")"; return o.str();
+}
+
+// ---------------------------------------------------------------------------------------------- mode 5
+// (5 ndim nvar dbin (nx dx x0) model neigh)   neigh = (0) | (1 nmini nmaxi radius)
+static std::string run_block1(const Sx& c) {
+  int ndim = (int) c[1].i(), nvar = (int) c[2].i();
+  defineDefaultSpace(ESpaceType::RN, ndim);
+  std::ostringstream o; o << "(";
+  for (int pass = 0; pass < 2; pass++) {
+    Db* dbin = makeDb(c[3], ndim, 0);
+    DbGrid* dbout = DbGrid::create(c[4][0].vi(), c[4][1].vd(), c[4][2].vd());
+    Model* model = makeModel(c[5], ndim, nvar);
+    ANeigh* neigh = c[6][0].i() == 0 ? (ANeigh*) NeighUnique::create() : (ANeigh*) NeighMoving::create(false, (int) c[6][2].i(), c[6][3].d(TEST), (int) c[6][1].i());
+    KOpt k;
+    if (pass == 1) { k.calcul = EKrigOpt::BLOCK; k.ndiscs = VectorInt(ndim, 1); }
+    if (pass == 0) { o << driftsStr(model) << " ("; for (int i = 0; i < dbout->getSampleNumber(); i++) { o << "("; for (int d = 0; d < ndim; d++) o << (d ? " " : "") << sx_d(dbout->getCoordinate(i, d)); o << ")"; } o << ") "; }
+    k.c01dump = (pass == 0);
+    o << krigeAll(dbin, dbout, model, neigh, k, allTargets(dbout), nvar, ndim) << (pass == 0 ? " " : "");
+    delete dbin; delete dbout; delete model; delete neigh;
+  }
+  o << ")"; return o.str();
+}
+
+// ---------------------------------------------------------------------------------------------- mode 6
+// (6 ndim nvar dbin dbout model neigh colvars secvals)  colvars = ranks of the collocated variables; secvals[k][it] their values at the targets
+static std::string run_colcok(const Sx& c) {
+  int ndim = (int) c[1].i(), nvar = (int) c[2].i(); int nfex = (int) c[5][2].i();
+  defineDefaultSpace(ESpaceType::RN, ndim);
+  VectorInt colvars = c[7].vi();
+  int nt = (int) c[4][0][0].size(), n = (int) c[3][0][0].size();
+  auto mkneigh = [&]() { return c[6][0].i() == 0 ? (ANeigh*) NeighUnique::create() : (ANeigh*) NeighMoving::create(false, (int) c[6][2].i(), c[6][3].d(TEST), (int) c[6][1].i()); };
+  std::ostringstream o; o << "(";
+  { // A: collocated option
+    Db* dbin = makeDb(c[3], ndim, nfex); Db* dbout = makeDb(c[4], ndim, nfex); Model* model = makeModel(c[5], ndim, nvar); ANeigh* neigh = mkneigh();
+    o << driftsStr(model) << " ";
+    KOpt k; k.colcok = VectorInt(nvar, -1);
+    for (size_t q = 0; q < colvars.size(); q++) {
+      VectorDouble v = c[8][q].vd(TEST);
+      int iuid = dbout->addColumns(v, "sec" + std::to_string(q + 1));
+      k.colcok[colvars[q]] = iuid;
+    }
+    o << krigeAll(dbin, dbout, model, neigh, k, allTargets(dbout), nvar, ndim) << " ";
+    delete dbin; delete dbout; delete model; delete neigh;
+  }
+  // B: the collocated datum appended to the data as an extra (heterotopic) sample, one run per target
+  o << "(";
+  for (int it = 0; it < nt; it++) {
+    Sx din = c[3];
+    for (int d = 0; d < ndim; d++) din.l[0].l[d].l.push_back(c[4][0][d][it]);
+    for (int v = 0; v < nvar; v++) { Sx na; din.l[1].l[v].l.push_back(na); }
+    for (size_t q = 0; q < colvars.size(); q++) din.l[1].l[colvars[q]].l.back() = c[8][q][it];
+    for (auto& col : din.l[2].l) { Sx na; col.l.push_back(na); }
+    for (int f = 0; f < nfex; f++) din.l[3].l[f].l.push_back(c[4][3][f][it]);
+    if (din.l[4].size() > 0) { Sx one; one.atom = true; one.v = 1; din.l[4].l.push_back(one); }
+    Db* dbin = makeDb(din, ndim, nfex); Db* dbout = makeDb(c[4], ndim, nfex); Model* model = makeModel(c[5], ndim, nvar); ANeigh* neigh = mkneigh();
+    KOpt k; k.c01dump = true;
+    o << krigeAll(dbin, dbout, model, neigh, k, VectorInt{it}, nvar, ndim);
+    delete dbin; delete dbout; delete model; delete neigh;
+  }
+  o << "))"; return o.str();
+}
+
+// ---------------------------------------------------------------------------------------------- mode 7
+static std::string vecStr(const VectorDouble& v) { return sx_vd(v); }
+static std::string matPtr(const AMatrix* M) { if (M == nullptr) return "()"; return matFull(*M); }
+// (7 ndim nvar dbin dbout model)   KrigingCalcul (primal and dual) fed by the Model API, vs KrigingSystem in unique neighbourhood
+static std::string run_calcul(const Sx& c) {
+  int ndim = (int) c[1].i(), nvar = (int) c[2].i(); int nfex = (int) c[5][2].i();
+  defineDefaultSpace(ESpaceType::RN, ndim);
+  std::ostringstream o; o << "(";
+  {
+    Db* dbin = makeDb(c[3], ndim, nfex); Db* dbout = makeDb(c[4], ndim, nfex); Model* model = makeModel(c[5], ndim, nvar); ANeigh* neigh = NeighUnique::create();
+    o << driftsStr(model) << " ";
+    KOpt k; k.c01dump = true;
+    o << krigeAll(dbin, dbout, model, neigh, k, allTargets(dbout), nvar, ndim) << " ";
+    delete dbin; delete dbout; delete model; delete neigh;
+  }
+  Db* dbin = makeDb(c[3], ndim, nfex); Db* dbout = makeDb(c[4], ndim, nfex);
+  int nt = dbout->getSampleNumber();
+  VectorDouble means = c[5][3].vd();
+  bool sk = c[5][1].i() < 0;
+  o << "(";
+  for (int it = 0; it < nt; it++) {
+    Model* model = makeModel(c[5], ndim, nvar);
+    MatrixSquareSymmetric Sigma = model->evalCovMatrixSymmetric(dbin);
+    MatrixRectangular X = model->evalDriftMatrix(dbin);
+    MatrixRectangular Sigma0 = model->evalCovMatrix(dbin, dbout, -1, -1, VectorInt(), VectorInt{it});
+    MatrixRectangular X0 = model->evalDriftMatrix(dbout, -1, VectorInt{it}, ECalcMember::RHS);
+    MatrixRectangular S00r = model->evalCovMatrix(dbout, dbout, -1, -1, VectorInt{it}, VectorInt{it});
+    MatrixSquareSymmetric Sigma00(S00r);
+    VectorDouble Z = dbin->getMultipleValuesActive(VectorInt(), VectorInt(), sk ? means : VectorDouble());
+    VectorDouble meansArg = sk ? means : VectorDouble(nvar, 0.);
+    o << "(" << matFull(Sigma) << " " << matFull(X) << " " << matFull(Sigma0) << " " << matFull(X0) << " " << matFull(Sigma00) << " " << vecStr(Z) << " ";
+    { // primal
+      KrigingCalcul K(false);
+      int e1 = K.setData(&Z, &meansArg), e2 = K.setLHS(&Sigma, &X), e3 = K.setRHS(&Sigma0, &X0), e4 = K.setVar(&Sigma00);
+      o << "(" << (e1 || e2 || e3 || e4) << " " << vecStr(K.getEstimation()) << " " << vecStr(K.getStdv()) << " " << vecStr(K.getVarianceZstar()) << " ";
+      const MatrixRectangular* L = K.getLambda();
+      o << (L == nullptr ? 0 : 1) << " " << matPtr(L) << " ";
+      // the member the accessor should have returned (read directly)
+      if (K._flagSK) { K._needLambdaSK(); o << matPtr(K._LambdaSK); } else { K._needLambdaUK(); o << matPtr(K._LambdaUK); }
+      o << " " << matPtr(K.getMu()) << ") ";
+    }
+    { // dual
+      KrigingCalcul K(true);
+      int e1 = K.setData(&Z, &meansArg), e2 = K.setLHS(&Sigma, &X), e3 = K.setRHS(&Sigma0, &X0);
+      o << "(" << (e1 || e2 || e3) << " " << vecStr(K.getEstimation()) << " ";
+      const MatrixRectangular* L = K.getLambda();
+      o << (L == nullptr ? 0 : 1) << " " << matPtr(L) << ")";
+    }
+    o << ")";
+    delete model;
+  }
+  o << "))";
+  delete dbin; delete dbout;
+  return o.str();
+}
+
 static std::string run(const Sx& c) {
   switch ((int) c[0].i()) {
     case 1: return run_covmat(c);
+    case 2: return run_unique_moving(c);
+    case 3: return run_xvalid(c);
+    case 4: return run_ball(c);
+    case 5: return run_block1(c);
+    case 6: return run_colcok(c);
+    case 7: return run_calcul(c);
     default: return "(-997 1)";
   }
 }
